@@ -294,6 +294,7 @@ def c08(ctx):
         O.r_own_elem_local(ctx, prog, 'api')
         O.r_own_local(ctx, prog, 'api')
         O.r_own_overwrite(ctx, prog)
+        IT.r_symtab_writers(ctx, prog)     # what enters the swept table is the decoders' business only
         O.r_uaf(ctx, prog, 'api')
         O.r_dangling(ctx, prog, 'api')
     return dict(
@@ -322,6 +323,7 @@ def c17(ctx):
         MX.r_dlink(ctx, prog)
         MX.r_rowcol_symmetry(ctx, prog)
         MX.r_blockchain(ctx, prog)
+        MX.r_hint_order(ctx, prog)
         MX.r_idx_guard(ctx, prog, SPARSE_UNITS, floor=4)
         O.r_uaf(ctx, prog, SPARSE_UNITS, min_sites=5)
     return dict(
@@ -347,6 +349,7 @@ def c18(ctx):
         O.r_own_field(ctx, prog, [], helpers=True)
         MX.r_pairswap(ctx, prog)
         MX.r_solver_ranges(ctx, prog)
+        MX.r_convert_range(ctx, prog)
         MX.r_scratch_reset(ctx, prog)
         MX.r_dense_rowfill(ctx, prog)
         IT.r_copy_scale(ctx, prog, ['of_matrix_dense.c', 'of_matrix_convert.c', 'of_ml_tool.c', 'of_hamming_weight.c'])
@@ -481,9 +484,13 @@ def c03(ctx):
         F.r_ml_giveup(ctx, prog)
         F.r_init_order(ctx, prog, [3])
         IT.r_symtab_writers(ctx, prog)
+        # the solver's result reaches the application through the callback-or-allocate rule and the source-symbol table
+        CB.r_cb(ctx, prog, [3])
+        CB.r_srcstore(ctx, prog, [3])
         D.r_finish_truth(ctx, prog, [3])
         MX.r_pairswap(ctx, prog)
         MX.r_solver_ranges(ctx, prog)
+        MX.r_convert_range(ctx, prog)
         MX.r_scratch_reset(ctx, prog)
         # ML decoding starts from the state the iterative decoder leaves, including the pre-loaded null last repair symbol: that
         # claim must be sound, and the XOR kernels the solver uses must be byte-exact
@@ -551,6 +558,10 @@ def c07(ctx):
         D.r_dup(ctx, prog, RS)
         D.r_count(ctx, prog, RS)
         D.r_rs_threshold(ctx, prog, RS)
+        # counters that index the ML solution vector must not be re-initialised after the null symbol was pre-loaded; buffers
+        # handed to the application must not be entered into the table the destructor sweeps
+        F.r_init_order(ctx, prog, MAIN3)
+        IT.r_symtab_writers(ctx, prog)
         KN.r_kernel_shape(ctx, prog)
         if ctx.tier == 'thorough':
             KN.r_kea(ctx, prog, list(range(0, 4 * KN.P + 1)), list(range(0, 21)))
